@@ -951,7 +951,7 @@ func overwriteStores(fn *ssa.Function) int {
 			return
 		}
 		ex, ok := ia.Index.(*ssa.Extract)
-		if !ok || ex.Index != 0 {
+		if !ok {
 			return
 		}
 		call, ok := ex.Tuple.(*ssa.Call)
@@ -959,22 +959,28 @@ func overwriteStores(fn *ssa.Function) int {
 			return
 		}
 		cal := staticCallee(&call.Call)
-		if cal == nil || fname(cal) != "searchNode" {
+		if cal == nil || cal.Blocks == nil || rootFn(cal).Pkg != rootFn(fn).Pkg {
 			return
 		}
-		// the node searched is the node written
+		// the node searched is the node written: an argument of searchNode, or - the descent living in a helper that hands back
+		// (node, idx, found) - another result of the same call
 		hit := false
-		for _, a := range call.Call.Args {
-			if a == fa.X {
-				hit = true
+		if fname(cal) == "searchNode" {
+			for _, a := range call.Call.Args {
+				if a == fa.X {
+					hit = true
+				}
 			}
+		}
+		if nx, isEx := fa.X.(*ssa.Extract); isEx && nx.Tuple == ex.Tuple && nx != ex {
+			hit = true
 		}
 		if !hit {
 			return
 		}
 		for _, g := range guardsOf(b) {
 			if v, val := g.boolVal(); val {
-				if fx, ok := v.(*ssa.Extract); ok && fx.Tuple == ex.Tuple && fx.Index == 1 {
+				if fx, ok := v.(*ssa.Extract); ok && fx.Tuple == ex.Tuple && fx != ex && isBoolType(fx.Type()) {
 					n++
 					return
 				}
@@ -982,4 +988,9 @@ func overwriteStores(fn *ssa.Function) int {
 		}
 	})
 	return n
+}
+
+func isBoolType(t types.Type) bool {
+	b, ok := t.Underlying().(*types.Basic)
+	return ok && b.Kind() == types.Bool
 }
